@@ -479,8 +479,11 @@ def main():
     pipeline.load_vela()
     # rewrite streams: the models of Model/Rewrites.lean against the real graph-optimiser functions (in-process)
     import c01_rewrites
+    import time
 
+    t0 = time.time()
     rw = c01_rewrites.run(ck)
+    ck.count("seconds_rewrite_streams", round(time.time() - t0))
     n = 40000 if ck.thorough else 6000
     k_inputs = 5 if ck.thorough else 4
     jobs = [(0, 0, "known_" + nm, k_inputs) for nm in ("slice_relu", "fused_act_relu", "pad_conv_reshape", "quantize_relu", "reshape_relu",
@@ -489,8 +492,19 @@ def main():
                                                               "mulmax_gt1", "mulmax_q0", "mulmax_qm1", "lrelu16_rounding", "pad_hw_and_channel")]
     jobs += [(ck.seed, i, PROFILES[i % len(PROFILES)], k_inputs) for i in range(n)]
     ctx = multiprocessing.get_context("fork")
+    t0 = time.time()
+    # The quick tier has a wall-clock budget: on a heavily loaded machine the compile stage is cut short after `budget` seconds
+    # (never below 1500 generated networks); every network is still a pure function of (seed, index), so a reported network
+    # replays regardless of how many were run. The number actually run is in the evidence (`evaluations`).
+    budget = None if ck.thorough else 100
+    outs = []
     with ProcessPoolExecutor(min(16, os.cpu_count() or 4), mp_context=ctx) as ex:
-        outs = list(ex.map(_worker, jobs, chunksize=1))
+        for k in range(0, len(jobs), 500):
+            if budget is not None and k >= 1500 and time.time() - t0 > budget:
+                ck.count("networks_not_run_for_lack_of_time", len(jobs) - k)
+                break
+            outs += list(ex.map(_worker, jobs[k:k + 500], chunksize=1))
+    ck.count("seconds_compile_and_build_requests", round(time.time() - t0))
     lines, owners = [], []
     for o in outs:
         if "harness_exception" in o:
@@ -506,7 +520,9 @@ def main():
         if "line" in o:
             lines.append(o["line"])
             owners.append(o)
+    t0 = time.time()
     answers = run_lean(lines)
+    ck.count("seconds_lean_execution", round(time.time() - t0))
     judged, nontrivial = 0, set()
     for o, ans, line in zip(owners, answers, lines):
         rp = {"profile": o["profile"], "seed": o["seed"], "index": o["idx"], "opts": o["opts"], "network": o["desc"],
